@@ -4,9 +4,10 @@ namespace A2l.Tree
 open A2l.G A2l.Sc
 
 /-- two environments with the same grammar table, code table and symbol table -/
-def EnvEq (e e' : Env) : Prop := e.table = e'.table ∧ e.symbols = e'.symbols ∧ e.code = e'.code
+def EnvEq (e e' : Env) : Prop :=
+  e.table = e'.table ∧ e.symbols = e'.symbols ∧ e.code = e'.code ∧ e.specialWrite = e'.specialWrite
 
-theorem EnvEq.setToks (e : Env) (toks : Array PTok) : EnvEq e { e with toks := toks } := ⟨rfl, rfl, rfl⟩
+theorem EnvEq.setToks (e : Env) (toks : Array PTok) : EnvEq e { e with toks := toks } := ⟨rfl, rfl, rfl, rfl⟩
 
 structure WriterCongr (e e' : Env) (F : Nat) : Prop where
   item : ∀ indent v, writeItem F e indent v = writeItem F e' indent v
@@ -19,7 +20,7 @@ theorem writer_congr {e e' : Env} (h : EnvEq e e') : ∀ F, WriterCongr e e' F
   | 0 => ⟨fun _ _ => rfl, fun _ _ => rfl, fun _ _ => rfl, fun _ _ _ => rfl, fun _ _ _ => rfl⟩
   | F + 1 => by
     have ih := writer_congr h F
-    obtain ⟨ht, hs, hc⟩ := h
+    obtain ⟨ht, hs, hc, hw⟩ := h
     refine ⟨?_, ?_, ?_, ?_, ?_⟩
     · intro indent v
       cases v <;> simp only [writeItem, ih.items]
@@ -32,6 +33,7 @@ theorem writer_congr {e e' : Env} (h : EnvEq e e') : ∀ F, WriterCongr e e' F
       rw [← ht]
       split
       · simp only [ih.items, ih.grp]
+      · rw [hw]
       · rfl
     · intro indent arms children
       cases arms with
@@ -53,7 +55,7 @@ theorem writeFile_congr {e e' : Env} (h : EnvEq e e') (v : Val) (F : Nat) : writ
 theorem Canon.congr {e e' : Env} (h : EnvEq e e') {v : Val} {items : List OT} (hc : Canon e v items) : Canon e' v items := by
   induction hc with
   | @mk ty info fields children comments isB its arms ht hl sub hlen hsub hsub2 hch hblk hcm hfs ih =>
-    obtain ⟨h1, h2, h3⟩ := h
+    obtain ⟨h1, h2, h3, _⟩ := h
     have := Canon.mk (e := e') (info := info) (fields := fields) (comments := comments) (by rw [← h1]; exact hl) sub hlen hsub hsub2
       ih hblk hcm hfs
     rw [← h2, ← h3] at this
@@ -62,7 +64,7 @@ theorem Canon.congr {e e' : Env} (h : EnvEq e e') {v : Val} {items : List OT} (h
 theorem InOrder.congr {e e' : Env} (h : EnvEq e e') {v : Val} {items : List OT} (hc : InOrder e v items) : InOrder e' v items := by
   induction hc with
   | @mk ty info fields children comments isB its arms ht items hl sub hlen hsub hsub2 harm hcmo hblk hcm hnil hfid hch ih =>
-    obtain ⟨h1, h2, h3⟩ := h
+    obtain ⟨h1, h2, h3, _⟩ := h
     exact InOrder.mk (by rw [← h1]; exact hl) sub hlen hsub hsub2 (by rw [← h2]; exact harm) hcmo hblk hcm hnil hfid ih
 
 end A2l.Tree
